@@ -1,5 +1,5 @@
 From AQ Require Import lib.Base model.H3Parse proofs.H3Chunk proofs.H3Split proofs.H3Loop proofs.H3Recv proofs.H3Fin proofs.H3Uni proofs.H3Table proofs.H3Push proofs.H3Hdr proofs.H3UniN proofs.H3Conn proofs.H3ConnTwo.
-From AQ Require Import model.H3Send proofs.H3Round proofs.H3Inter proofs.H3Two.
+From AQ Require Import model.H3Send proofs.H3Round proofs.H3Inter proofs.H3Two proofs.H3Many proofs.H3Pre.
 
 (* On the code as pinned, the events of a request stream depend on the chunking: three byte strings for which
    whole delivery and a two-chunk delivery give different normalised events (end-of-stream marker). *)
@@ -455,3 +455,52 @@ Theorem interleaving_independent_mixed : forall fx O tr1 tr2 c outs1 outs2,
   forall sid, is_uni sid = false -> proj sid tr1 = proj sid tr2 -> outs_of sid outs1 = outs_of sid outs2.
 Proof. exact interleave_independent_mixed. Qed.
 Print Assumptions interleaving_independent_mixed.
+
+(* ANY NUMBER of blocked streams.  L = a list of distinct request / response streams, each with a delivery that starts with a
+   HEADERS frame whose block needs encoder-stream data (item_ok: the stream is new or between two frames, the decoder
+   answers StreamBlocked before the encoder data, resuming = decoding, and the stream's own parser returns the events i_ev
+   once the block is decoded).  Schedule 1: every stream of L is delivered (each waits, no events), then ONE encoder-stream
+   delivery reports ids L and all are resumed in that order inside that call: Events (concat of their events).  Schedule 2:
+   the encoder stream first, then the streams: Events (i_ev it) for each.  (many_blocked_example: satisfiable.) *)
+Theorem interleaving_independent_any_number_of_blocked_streams :
+  forall fx, fx_trunc fx = true -> fx_endmark fx = true -> fx_pushblock fx = true ->
+  forall (c0 : conn) (OB O2 : oracle) (L : list item) (es : Z) (encdata encpayload : list Z) (OA : oracle),
+  c_done c0 = false -> c_sent_end c0 = [] -> is_uni es = true ->
+  NoDup (ids L) -> Forall (item_ok fx c0 OB O2) L -> enc_ready c0 es encdata encpayload ->
+  o_enc OA encpayload = EUnblocked [] -> o_enc O2 encpayload = EUnblocked (ids L) ->
+  run fx c0 (map (dlv OB) L ++ [(QStream es encdata false, O2)])
+    = map (fun _ => Events []) L ++ [Events (concat (map i_ev L))] /\
+  run fx c0 ((QStream es encdata false, OA) :: map (dlv O2) L)
+    = Events [] :: map (fun it => Events (i_ev it)) L.
+Proof. exact many_blocked. Qed.
+Print Assumptions interleaving_independent_any_number_of_blocked_streams.
+
+(* A waiting HEADERS frame PRECEDED by other frames of the same delivery, on a stream in ANY state a delivery can leave
+   behind (stream_ok): the delivery is pre ++ (HEADERS frame ++ rest), where [pre] is parsed completely and identically
+   before and after the encoder data is known (events ePre, leaving the stream between two frames: state s1).  Stream first:
+   the call returns eB1 (the events of [pre], in normal form) and the stream waits; the encoder-stream delivery resumes it
+   and returns oB.  Encoder stream first: the one call of the stream returns oA.  Then: both orders report the same
+   normalised events (pre's events followed by what the resumed frame and the rest yield), or close with the same code. *)
+Theorem interleaving_independent_headers_after_prefix :
+  forall fx, fx_trunc fx = true -> fx_endmark fx = true -> fx_pushblock fx = true ->
+  forall c0 sid es pre data block rest fin encdata encpayload OA OB O2 ePre s1,
+  c_done c0 = false -> c_sent_end c0 = [] -> is_uni sid = false -> is_uni es = true ->
+  stream_ok (fst (get_or_create c0 sid)) -> enc_ready c0 es encdata encpayload ->
+  rq_recv fx OB (c_client c0) (fst (get_or_create c0 sid)) pre false = RVal ePre s1 ->
+  rq_recv fx O2 (c_client c0) (fst (get_or_create c0 sid)) pre false = RVal ePre s1 ->
+  hd_boundary s1 ->
+  frame_at data 1 block rest ->
+  o_enc OA encpayload = EUnblocked [] ->
+  o_dec OB sid block = DBlocked ->
+  o_enc O2 encpayload = EUnblocked [sid] -> o_resume O2 sid = o_dec O2 sid block -> o_dec O2 sid block <> DBlocked ->
+  exists eB1 oB oA,
+    run fx c0 [(QStream sid (pre ++ data) fin, OB); (QStream es encdata false, O2)] = [Events eB1; oB] /\
+    run fx c0 [(QStream es encdata false, OA); (QStream sid (pre ++ data) fin, O2)] = [Events []; oA] /\
+    norm eB1 = norm ePre /\
+    match hd_decoded fx O2 (c_client c0) s1 fin rest (o_dec O2 sid block) with
+    | RVal eRes _ => oB = Events eRes /\ exists eA, oA = Events eA /\ norm eA = norm (ePre ++ eRes)
+    | RErr k => oB = Closed k /\ oA = Closed k
+    | RExn k => oB = Raised k /\ oA = Raised k
+    end.
+Proof. exact hd_interleave_prefix. Qed.
+Print Assumptions interleaving_independent_headers_after_prefix.
